@@ -7,6 +7,7 @@ func init() {
 		ID:    "C05",
 		Title: "Text outside Textwire syntax is emitted byte for byte; escapes, comments work",
 		Rules: []string{
+			"R-PATHAPI (file content): EvaluateFile and the loader hand the file's bytes on unchanged",
 			"R-LOOP: @for / @each by cases: the output of a loop is the output of its passes, in order, and nothing else",
 			"R-FORMAT: the rendered page is never used as a printf format",
 			"R-LEXINPUT: lexer.New stores its argument as the input unchanged and every caller hands it the text it was given (a parameter handed through, or a file's content as read)",
@@ -21,6 +22,7 @@ func init() {
 		NotDecided:  "TODO",
 		Assumptions: trustedBase,
 		Run: func(m *Model, s *Sink) {
+			m.RunEvalFile(s, "R-PATHAPI")                                // the text of a file reaches the lexer with the bytes the file has (CR, the final newline)
 			m.RunLoop(s, "R-LOOP")                                       // a loop emits the output of its passes and nothing else (no text left over from an earlier loop or render)
 			m.RunFormat(s, "R-FORMAT", m.reachableFns(m.Roots().Render)) // a percent sign in the text is not a verb
 			m.RunTextSkip(s, "R-TEXTKEEP")                               // the parser steps over text only when it is whitespace
